@@ -16,7 +16,7 @@ EXTENDS Integers, Sequences, FiniteSets, TLC, Json, CSV, IOUtils
 
 CONSTANTS StackSize, FrameSize
 
-Kinds == {"div0", "mod0", "shiftneg", "index", "slice", "notcallable", "nargs", "gopanic", "gopanic-nil", "gopanic-nilerr", "gopanic-nilrte", "gopanic-ugoerr", "gopanic-struct", "throw",
+Kinds == {"div0", "mod0", "shiftneg", "index", "slice", "notcallable", "nargs", "gopanic", "gopanic-nil", "gopanic-nilerr", "gopanic-nilrte", "gopanic-ugoerr", "gopanic-struct", "syncmap-get", "syncmap-set", "throw",
           "framelimit", "stacklimit", "wideexpr", "framelimit-catch", "notiterable", "setindex", "setselector", "spread", "builtin-type"}
 Ctxs  == {"plain", "try-catch", "try-finally", "catch-rethrow", "callback", "callback-try",
           \* the failure strikes on a child VM (pooled or not) that has its own handler, or on a child VM the
@@ -62,11 +62,18 @@ Total == done => err \in {"caught", "error"}
 Outcome == IF err = "caught" THEN "value" ELSE "error"
 
 \* case matrix for the real code (one line per kind x context x depth)
-Matrix == {[kind |-> k, ctx |-> x, depth |-> d,
-            \* near a limit the VM may report the limit instead of the failure: only totality is required there
-            \* (the same holds for the two limit kinds themselves: the property allows delivery to a handler or an error from Run)
-            expect |-> IF d # "shallow" \/ k \in {"framelimit", "stacklimit", "wideexpr", "framelimit-catch"} THEN "value-or-error"
-                       ELSE IF x \in {"try-catch", "try-finally", "callback-try", "try-in-callback", "try-in-callback-unpooled", "catch-then-catch", "loop-catch"} THEN (IF x = "try-finally" THEN "error-after-finally" ELSE "value")
-                       ELSE "error"] : k \in Kinds, x \in Ctxs, d \in Depths}
+Expect(k, x, d) ==
+  \* near a limit the VM may report the limit instead of the failure: only totality is required there
+  \* (the same holds for the two limit kinds themselves: the property allows delivery to a handler or an error from Run)
+  IF d # "shallow" \/ k \in {"framelimit", "stacklimit", "wideexpr", "framelimit-catch"} THEN "value-or-error"
+  ELSE IF x \in {"try-catch", "try-finally", "callback-try", "try-in-callback", "try-in-callback-unpooled", "catch-then-catch", "loop-catch"} THEN (IF x = "try-finally" THEN "error-after-finally" ELSE "value")
+  ELSE "error"
+Matrix == {[kind |-> k, ctx |-> x, depth |-> d, expect |-> Expect(k, x, d)] : k \in Kinds, x \in Ctxs, d \in Depths}
+\* C14 on failures: a function the host calls through an Invoker (from a callback during the run, pooled or not, or
+\* after Run) meets the same fate as the same function called inside the script - pairs <<in-script context, Go context>>
+InvokePairs == {<<"plain", "callback">>, <<"plain", "host-invoke">>, <<"plain", "host-invoke-unpooled">>,
+                <<"try-catch", "try-in-callback">>, <<"try-catch", "try-in-callback-unpooled">>}
+ASSUME InvokeSame == \A p \in InvokePairs, k \in Kinds, d \in Depths : Expect(k, p[1], d) = Expect(k, p[2], d)
 ASSUME CSVWrite("%1$s", <<ToJson(Matrix)>>, IOEnv.OUT)
+ASSUME CSVWrite("%1$s", <<ToJson(InvokePairs)>>, IOEnv.OUT)
 =============================================================================
